@@ -75,6 +75,170 @@ def closure_axioms(formulas):
     return out
 
 
+_LIST_CACHE = {}
+
+
+def _list_reads(f):
+    k = f.get_id()
+    hit = _LIST_CACHE.get(k)
+    if hit is None:
+        out = []
+        for e in smt.subterms([f]):
+            if z3.is_app(e) and e.decl().name() in ("list_len", "list_get", "list_idx_ok", "list_set_ok", "list_del_ok"):
+                out.append(e)
+        hit = (f, out)
+        _LIST_CACHE[k] = hit
+    return hit[1]
+
+
+def _vint(j):
+    """the z3 Int inside VInt(j), or None"""
+    if z3.is_app(j) and j.decl().name() == "VInt":
+        return j.children()[0]
+    return None
+
+
+def global_list_axioms(formulas, alias):
+    """len / get of the list operation symbols [SPEC-BUILTIN], instantiated at every occurring read and followed
+    through writes, array stores and equations (as for dicts).  Indices are the non-negative ones the code uses."""
+    ax = []
+    work = []
+    for f in formulas:
+        if z3.is_expr(f):
+            for e in _list_reads(f):
+                work.append(e)
+    seen = set()
+    steps = 0
+    L, G = bs.list_len, bs.list_get
+    while work and steps < 3000:
+        steps += 1
+        e = work.pop()
+        if e.get_id() in seen:
+            continue
+        seen.add(e.get_id())
+        nm = e.decl().name()
+        args = e.children()
+        c = args[0]
+        if nm == "list_len":
+            ax.append(e >= 0)
+        if nm in ("list_idx_ok", "list_set_ok"):
+            j = _vint(args[1])
+            if j is not None:
+                ax.append(z3.Implies(z3.And(j >= 0, j < L(c)), e))
+                ax.append(z3.Implies(j >= L(c), z3.Not(e)))
+                work.append(L(c))
+            continue
+        if nm == "list_del_ok":
+            k = args[1]
+            if z3.is_app(k) and k.decl().name() == "mk_slice":
+                ax.append(e)
+            continue
+        j = _vint(args[1]) if nm == "list_get" else None
+        cs = [c]
+        cn = _norm_select(c)
+        if not cn.eq(c):
+            ax.append(c == cn)
+            cs.append(cn)
+        for a in alias.get(c.get_id(), []) + alias.get(cn.get_id(), []):
+            cs.append(a)
+            an = _norm_select(a)
+            if not an.eq(a):
+                ax.append(a == an)
+                cs.append(an)
+        for t in cs:
+            if not z3.is_app(t):
+                continue
+            tn = t.decl().name()
+            rd = (lambda x: L(x)) if nm == "list_len" else (lambda x: G(x, args[1]))
+            if not t.eq(c):
+                work.append(rd(t))
+                ax.append(z3.Implies(t == c, rd(t) == e))
+            if tn == "list_set":
+                c0, k, x = t.children()
+                ki = _vint(k)
+                if nm == "list_len":
+                    ax.append(L(t) == L(c0))
+                    work.append(L(c0))
+                elif j is not None and ki is not None:
+                    ax.append(z3.Implies(z3.And(ki >= 0, ki < L(c0)), G(t, args[1]) == z3.If(ki == j, x, G(c0, args[1]))))
+                    work.append(G(c0, args[1]))
+                    work.append(L(c0))
+            elif tn == "list_append":
+                c0, x = t.children()
+                if nm == "list_len":
+                    ax.append(L(t) == L(c0) + 1)
+                    work.append(L(c0))
+                elif j is not None:
+                    ax.append(z3.Implies(z3.And(j >= 0, j <= L(c0)), G(t, args[1]) == z3.If(j == L(c0), x, G(c0, args[1]))))
+                    work.append(G(c0, args[1]))
+                    work.append(L(c0))
+            elif tn == "list_extend":
+                a0, b0 = t.children()
+                if nm == "list_len":
+                    ax.append(L(t) == L(a0) + L(b0))
+                    work.append(L(a0))
+                    work.append(L(b0))
+                elif j is not None:
+                    jb = bs.VInt(j - L(a0))
+                    ax.append(z3.Implies(j >= 0, G(t, args[1]) == z3.If(j < L(a0), G(a0, args[1]), G(b0, jb))))
+                    work.append(G(a0, args[1]))
+                    work.append(G(b0, jb))
+                    work.append(L(a0))
+            elif tn == "list_del":
+                c0, k = t.children()
+                if z3.is_app(k) and k.decl().name() == "mk_slice":
+                    lo, hi, stp = k.children()
+                    li = _vint(lo)
+                    if li is not None and hi.eq(smt.VNone) and stp.eq(smt.VNone):
+                        # del c[n:]
+                        if nm == "list_len":
+                            ax.append(z3.Implies(li >= 0, L(t) == z3.If(li <= L(c0), li, L(c0))))
+                            work.append(L(c0))
+                        elif j is not None:
+                            ax.append(z3.Implies(z3.And(j >= 0, j < li), G(t, args[1]) == G(c0, args[1])))
+                            work.append(G(c0, args[1]))
+            elif tn == "list_empty":
+                if nm == "list_len":
+                    ax.append(L(t) == 0)
+            elif tn == "list_of":
+                x = t.children()[0]
+                ax.append(rd(t) == rd(x))
+                work.append(rd(x))
+            elif tn == "list_slice_from":
+                x, n = t.children()
+                ni = _vint(n)
+                if ni is not None:
+                    if nm == "list_len":
+                        ax.append(z3.Implies(ni >= 0, L(t) == z3.If(ni <= L(x), L(x) - ni, 0)))
+                        work.append(L(x))
+                    elif j is not None:
+                        jj = bs.VInt(ni + j)
+                        ax.append(z3.Implies(z3.And(j >= 0, ni >= 0), G(t, args[1]) == G(x, jj)))
+                        work.append(G(x, jj))
+            elif tn == "plain":
+                x = t.children()[0]
+                # plain() acts element-wise on sequences [N-VIEW]
+                from contracts.core import is_sequence
+                if nm == "list_len":
+                    ax.append(L(t) == L(x))
+                    work.append(L(x))
+                else:
+                    ax.append(z3.Implies(is_sequence(x), G(t, args[1]) == bs.plain(G(x, args[1]))))
+                    work.append(G(x, args[1]))
+            elif t.decl().kind() == z3.Z3_OP_ITE:
+                _, a1, b1 = t.children()
+                work.append(rd(a1))
+                work.append(rd(b1))
+            elif t.decl().kind() == z3.Z3_OP_SELECT:
+                arr, idx = t.children()
+                while z3.is_app(arr) and arr.decl().kind() == z3.Z3_OP_STORE:
+                    a0, i0, v0 = arr.children()
+                    ax.append(z3.Implies(idx == i0, rd(t) == rd(v0)))
+                    work.append(rd(v0))
+                    arr = a0
+    return ax
+
+
 _READS_CACHE = {}
 _POP_CACHE = {}
 
@@ -242,6 +406,7 @@ def global_row_axioms(formulas):
                                                                  bs.list_pop_rest(c, j) == c0)))
                         if not An.eq(A):
                             ax.append(A == An)
+    ax.extend(global_list_axioms(formulas, alias))
     done = set()
     work = list(reads)
     steps = 0
